@@ -164,7 +164,7 @@ func (sc *scenario) restorePlan(r *rand.Rand) []rfault {
 	}
 	r.Shuffle(len(all), func(i, j int) { all[i], all[j] = all[j], all[i] })
 	// one of each (part, op) first so that the region kinds are spread, then fill
-	nRaw := kit.Scale(10, 30)
+	nRaw := kit.Scale(8, 30)
 	seen := map[string]bool{}
 	var picked []ro
 	for _, x := range all {
@@ -208,10 +208,13 @@ func (sc *scenario) restorePlan(r *rand.Rand) []rfault {
 	// cancellation at the j-th poll of the context (two Err() polls and one
 	// Done() per archive member)
 	for j := 1; j <= 2*E; j++ {
+		if quick && j > 3 && j != 2*E {
+			continue
+		}
 		plan = append(plan, rfault{Kind: "cancel-err", J: j, CurMode: cm()})
 	}
 	for k := 1; k <= E; k++ {
-		if quick && k != 1 && k != E {
+		if quick && k != 1 {
 			continue
 		}
 		plan = append(plan, rfault{Kind: "cancel-done", J: k, CurMode: cm()})
